@@ -11,6 +11,11 @@ CHECKS = {
                      "classification tables injective and name-agreeing; entry points pass the requested kinds unchanged) are generated from the ADT definitions "
                      "and each is discharged on the MIR; obligations == discharged is required.",
                 note="trusted: rustc MIR construction, the extractor and engines, std Vec/HashSet/Option contracts, field order = source order for solang-parser 0.1.18; inline assembly excluded by type"),
+    "C02": dict(level="other", design_ref="5/C02", technique="provenance of the line-lookup operands + range analysis and canonical-form recognition of the counting function (static analysis)",
+                text="Decides the plumbing (Loc::start of every element of the detector's result, looked up in the very text that was parsed, every location converted), "
+                     "that no returned line is < 1, and recognises the counting function as the canonical 1 + #LF-before-offset over bytes; which node each detector reports "
+                     "is decided by C05-C09. Outside the canonical form the arithmetic is not decided and the check fails closed.",
+                note=_MIR + "; Loc::start = first byte of the construct; std iterator semantics"),
     "C03": dict(level="other", design_ref="5/C03", technique="MIR dataflow: accumulator mutation discipline + provenance of merge keys (static analysis)",
                 text="Structural: in each of the three analyze_dir the returned map is only ever extended per key (entry/or_insert/push|append), the recursion "
                      "passes the same patterns and its result is merged under its own keys, the per-file result is pushed under the pattern that produced it. "
